@@ -17,7 +17,15 @@ prop("C15", "exploration",
      "ClientConfig.MaxBufferedPackets) and every step may make its application stop or resume calling ReadMsg; genuine, roam and "
      "silent-move steps may be preceded by 1..6 extra genuine packets from the peer's old address, so that roams and adversarial "
      "datagrams arrive while the queue is full and the endpoint drops payloads (labels roam-arrives-at-full-queue ~ 1 case in 4, "
-     "adversarial-datagram-arrives-at-full-queue, genuine-packet-dropped-at-full-queue). Lock-step: after the deliveries of every step all "
+     "adversarial-datagram-arrives-at-full-queue, genuine-packet-dropped-at-full-queue). Writes under way while the peer moves (step roam-while-write-blocked, ~ 1 step in 12, both sides): the endpoint's socket "
+     "stops taking datagrams (simnet write gate = full send buffer); one WriteMsg of the endpoint blocks INSIDE the socket (sealed, "
+     "destination already handed over), 1..3 further concurrent writers queue up behind it (the harness waits until every goroutine "
+     "is blocked - durably or on the handle's write mutex: vlib.BubbleQuiet, a goroutine-dump poll, since synctest.Wait cannot return "
+     "while a mutex is awaited); then the peer moves, its genuine packet is delivered and processed, and only then does the socket "
+     "drain. Judged: every datagram whose socket write BEGAN after the genuine packet from the new address had been processed goes to "
+     "the new address (roaming-not-followed:write-queued-behind-a-blocked-socket-write); the datagram(s) already inside the socket "
+     "may keep the old destination (label blocked-write-keeps-its-old-destination(allowed)); one datagram per write; all writes return. "
+     "Lock-step: after the deliveries of every step all "
      "goroutines settle (synctest.Wait), the endpoint under test writes one message (WriteMsg) and the datagrams it put on the wire "
      "are read from the wire log. Oracle (harness-side model): addr := source of the last delivered datagram that was genuine, "
      "unmodified and fresh; every session datagram the endpoint emits goes to addr at that moment (redirected-by:<class>, "
@@ -50,8 +58,9 @@ prop("C15", "exploration",
           "destination of every datagram the endpoint emits is compared with a one-variable model (source of the last genuine, "
           "unmodified, fresh delivery). Both directions (server tracking the client, client tracking the server), both handshake "
           "modes, receive queues from the package default down to one packet with an application that stops and resumes reading "
-          "(packets whose payload is dropped at a full queue still move the address). Absence is not shown; a counter-example would need an adversarial datagram shape outside the generated classes.",
+          "(packets whose payload is dropped at a full queue still move the address); roams that arrive while one write of the endpoint is "
+          "blocked in the socket and further writers are queued behind it (the queued writes must follow the move). Absence is not shown; a counter-example would need an adversarial datagram shape outside the generated classes.",
      note="trusts synctest (Wait = all goroutines settled), simnet (wire log, injection with arbitrary source address, Rebind), the "
-          "white-box read of the session id; cryptographic primitives are treated as ideal",
+          "white-box read of the session id, the goroutine dump (wait states) for quiescence while writers wait for a mutex; cryptographic primitives are treated as ideal",
      technique="property-based model checking of address tracking (rapid scripts, simulated datagram network in lock-step, wire-log oracle)",
      design="DESIGN.md section 4, C15")
